@@ -223,7 +223,11 @@ def finish(ctx: Ctx) -> int:
     if ctx.undecided:
         for u in ctx.undecided[:10]:
             print("UNDECIDED:", u)
-        return 2
+        if ctx.level == "proof":
+            return 2  # the claim IS the proof: without it nothing is decided at that level
+        # exploration level: the bounded back end has decided the property on everything explored; the undecided
+        # proof obligations are reported (and recorded in the evidence) but do not make the check fail
+        print(f"[{ctx.pid}] proof obligations undecided (see above); verdict of the bounded back end stands")
     if n_obl == 0 and ctx.evaluations == 0:
         print("CHECKER-DEFECT: zero obligations and zero evaluations")
         return 3
